@@ -1,0 +1,7 @@
+//go:build !verif
+
+package allocator
+
+// verifAddTask reports a task handed to a miner to the verification harness (build tag "verif").
+// Without the tag it is an empty function that the compiler removes.
+func verifAddTask(minerID string, taskID string, job float64) {}
